@@ -44,7 +44,7 @@ impl Check for C14 {
         "C14"
     }
     fn rule(&self) -> String {
-        "case = one library written to a real temp directory (file names with spaces, non-ASCII, %, #, ?, +, brackets, dots, leading dot, nested directories) under a base path variant (plain, space, non-ASCII, %-sequence, trailing slash), loaded by the disk-backed server (state=None); per file, URI = Url::from_file_path(abs): formatting(URI) must return the loaded note, didChange(URI, marker) then formatting(URI) must return the marker with the note count (completion list) unchanged, references(URI) must report the linker note, and every URI in responses (symbols, references, definition) must map through Url::to_file_path to the existing file that was meant; distinct = (base class, name class) pairs".into()
+        "case = one library written to a real temp directory (file names with spaces, non-ASCII, %, #, ?, +, brackets, dots, leading dot, nested directories) under a base path variant (plain, space, non-ASCII, %-sequence, trailing slash, #, ?, '.' and '..' segments, directory names that end or begin with a space), loaded by the disk-backed server (state=None); per file, URI = Url::from_file_path(abs): formatting(URI) must return the loaded note, didChange(URI, marker) then formatting(URI) must return the marker with the note count (completion list) unchanged, references(URI) must report the linker note, and every URI in responses (symbols, references, definition) must map through Url::to_file_path to the existing file that was meant; distinct = (base class, name class) pairs".into()
     }
     fn assumptions(&self) -> Vec<String> {
         vec!["the editor builds URIs like url::Url::from_file_path (percent-encoding per RFC 3986)".into()]
